@@ -296,7 +296,8 @@ func (c *addCase) defuse() {
 	}
 	var kept []qparam
 	for _, q := range c.query {
-		if q.key != "progress" {
+		// (nor a chunker: where exactly the multi-chunk builders trip over the bad prefix is the adder's business)
+		if q.key != "progress" && q.key != "chunker" {
 			kept = append(kept, q)
 		}
 	}
